@@ -37,16 +37,24 @@ DEVIATIONS = {
     # needs 5 nodes and ~36 steps: directed search along RaftImpl!StaleGuide
     "stale_term_ae_response": dict(inv="LeaderCompleteness", n=5, term=4, log=2, ops=4, msgs=99, toseq=(),
                                    guide="StaleGuide"),
+    # plausible regressions (never in the code so far), directed 5-node scenarios
+    "commit_counts_old_term_entry": dict(inv="LeaderCompleteness", n=5, term=4, log=2, ops=4, msgs=99, toseq=(),
+                                         guide="Fig8Guide"),
+    "vote_tally_survives_retry": dict(inv="ElectionSafety", n=5, term=2, log=1, ops=1, msgs=99, toseq=(),
+                                      guide="SplitVoteGuide"),
 }
+# directed 5-node scenarios of RaftImpl.tla: (guide, MaxTerm, MaxLog, MaxOps)
+GUIDES = {"fig8": ("Fig8Guide", 4, 2, 4), "splitvote": ("SplitVoteGuide", 2, 1, 1), "stale": ("StaleGuide", 4, 2, 4)}
 # a contract clause that fails on an execution the as-code model reproduces is attributed to a
 # deviation that makes this clause fail in the model and that fired in the execution
 CLAUSE_DEV = {}
 for _k, _v in DEVIATIONS.items():
     CLAUSE_DEV.setdefault(_v["inv"], []).append(_k)
 
-_COMMIT = ["match_is_follower_last_index", "stale_term_ae_response", "same_term_ae_clears_vote"]
+_COMMIT = ["match_is_follower_last_index", "stale_term_ae_response", "commit_counts_old_term_entry",
+           "same_term_ae_clears_vote", "vote_tally_survives_retry"]
 ATTRIBUTION = {     # group -> (clauses, the only registered deviations that can break them)
-    "election": (["ElectionSafety"], ["same_term_ae_clears_vote"]),
+    "election": (["ElectionSafety"], ["same_term_ae_clears_vote", "vote_tally_survives_retry"]),
     "future": (["FutureTruth"], ["future_keyed_by_index_only"]),
     "commit": (["LogMatching", "LeaderCompleteness", "StateMachineSafety"], _COMMIT),
 }
@@ -56,6 +64,8 @@ SITES = {
     "match_is_follower_last_index": "raft.py:_handle_append_entries (match_index=last_index)",
     "future_keyed_by_index_only": "raft.py:_apply_committed/_pending_futures",
     "stale_term_ae_response": "raft.py:_handle_append_entries_response",
+    "commit_counts_old_term_entry": "raft.py:_try_advance_commit",
+    "vote_tally_survives_retry": "raft.py:_start_election/_step_down (_votes_received_set)",
 }
 
 
@@ -119,6 +129,10 @@ def model_check(chk, tier, known):
     for name, c in safe:
         jobs.append(("safe",) + job(name, c, sym=True, timeout=3000 if tier != "quick" else 600,
                                     env=JVM_LONG if tier != "quick" else JVM_SHORT))
+    # the directed 5-node scenarios (figure 8, split vote + retry, stale response) in the design model
+    for gname, (guide, term, log, ops) in GUIDES.items():
+        jobs.append(("guide",) + job("guide_" + gname, consts(5, [], term, log, ops, 99, guide=guide),
+                                     workers=2))
     for dev, d in DEVIATIONS.items():
         c = consts(d["n"], [dev], d["term"], d["log"], d["ops"], d["msgs"], toseq=d["toseq"],
                    guide=d.get("guide", "NoGuide"))
@@ -146,6 +160,10 @@ def model_check(chk, tier, known):
         if kind == "safe":
             chk.add_tlc(f"RaftImpl Dev={{}} {name} (symmetric)", res)
             chk.require(res.ok, f"RaftImpl with Dev={{}} violates {res.violated} in {name}")
+        elif kind == "guide":
+            chk.add_tlc(f"RaftImpl Dev={{}} 5 nodes directed {name}", res)
+            chk.require(res.ok, f"RaftImpl with Dev={{}} violates {res.violated} along {name}")
+            chk.require(res.depth > 15, f"directed scenario {name} is not followed by the model (depth {res.depth})")
         elif kind == "simulate":
             mt = None
             for mt in re.finditer(r"(?:Progress: |generated: )([\d,]+) states checked, ([\d,]+) traces generated",
@@ -344,6 +362,9 @@ def model_behaviours(chk, tier, known, rng):
                  ("g_l2", consts(3, known, 1, 2, 2, 2, toseq=(2,)), 100000),
                  ("g_t2_o2", consts(3, known, 2, 1, 2, 2, toseq=(1, 3)), 4000),
                  ("g_t3", consts(3, known, 3, 1, 2, 2, toseq=(1, 2, 1)), 3000)]
+    # directed 5-node scenarios: every variant of which in-flight message of the named class is delivered
+    for gname, (guide, term, log, ops) in GUIDES.items():
+        confs.append((f"g_{gname}", consts(5, known, term, log, ops, 99, guide=guide), 100000))
     out = []
 
     def dump(item):
@@ -355,11 +376,11 @@ def model_behaviours(chk, tier, known, rng):
                       workers=max(2, tlc.DEFAULT_WORKERS // 2))
         g = parse_dot_edges(wd / "g.dot")
         (wd / "g.dot").unlink(missing_ok=True)
-        return name, cap, res, g
+        return name, cap, res, g, c["Nodes"].count(",") + 1
 
-    with ThreadPoolExecutor(max_workers=2) as ex:
+    with ThreadPoolExecutor(max_workers=3) as ex:
         dumps = list(ex.map(dump, confs))
-    for name, cap, res, g in dumps:
+    for name, cap, res, g, nn in dumps:
         chk.add_tlc(f"state graph {name} (Dev=as-code {known})", res, count=False,
                     note=f"{g.n_edges()} labelled edges")
         chk.require(g.inits and g.n_edges() > 0, f"empty state graph {name}")
@@ -380,7 +401,7 @@ def model_behaviours(chk, tier, known, rng):
             for lab, dst in p:
                 acts.append(dec.action(src, lab, dst))
                 src = dst
-            out.append((name, acts))
+            out.append((name, acts, nn))
     return out
 
 
@@ -429,26 +450,49 @@ def rounds_schedule(rng, n, steps):
                 break
             c = rng.choice(hb)
         else:
-            c = rng.choice(cands)
+            # a candidate that lost its last election retries (candidate -> candidate) half of the time
+            again = [i for i in cands if w.nodes[i].state.name == "CANDIDATE"]
+            c = rng.choice(again) if again and rng.random() < 0.5 else rng.choice(cands)
             others = [i for i in ids if i != c]
-            reach = set(rng.sample(others, min(len(others), rng.choice((quorum - 1, quorum - 1, n - 1, max(0, quorum - 2))))))
-            w.fire(c, ET)
-            pump(lambda m: m["type"] == "RV" and m["src"] == c and m["dst"] in reach)
-            pump(lambda m: m["type"] == "RVR" and m["dst"] == c, p=0.9)
+            rivals = [i for i in cands if i != c]
+            if rivals and rng.random() < 0.35:
+                # split vote: two campaigns at once, every other node hears (at most) one of them first
+                c2 = rng.choice(rivals)
+                w.fire(c, ET)
+                w.fire(c2, ET)
+                side = {i: rng.choice((c, c2, c, c2, 0)) for i in ids if i not in (c, c2)}
+                pump(lambda m: m["type"] == "RV" and m["src"] in (c, c2) and side.get(m["dst"]) == m["src"])
+                pump(lambda m: m["type"] == "RVR" and m["dst"] in (c, c2), p=0.9)
+                if rng.random() < 0.5:      # the other campaign's request arrives late
+                    pump(lambda m: m["type"] == "RV" and m["src"] in (c, c2), p=0.5)
+                    pump(lambda m: m["type"] == "RVR" and m["dst"] in (c, c2), p=0.8)
+                if w.nodes[c2].is_leader and not w.nodes[c].is_leader:
+                    c = c2
+            else:
+                reach = set(rng.sample(others, min(len(others),
+                                                   rng.choice((quorum - 1, quorum - 1, n - 1, max(0, quorum - 2))))))
+                w.fire(c, ET)
+                pump(lambda m: m["type"] == "RV" and m["src"] == c and m["dst"] in reach)
+                pump(lambda m: m["type"] == "RVR" and m["dst"] == c, p=0.9)
         if w.nodes[c].is_leader:
+            # replication as a random interleaving of client submits, heartbeat ticks, deliveries to a
+            # subset and answers (so a submit can race with the back-off re-send of older entries)
             others = [i for i in ids if i != c]
-            for _ in range(rng.randint(0, 2)):
-                if w.nops < 14:
-                    w.submit(c)
-            for _ in range(rng.randint(0, 3)):
-                if not w.live(c, HB) or w.is_crashed(c):
+            for _ in range(rng.randint(2, 8)):
+                if w.is_crashed(c) or not w.nodes[c].is_leader or len(w.steps) >= steps:
                     break
-                w.fire(c, HB)
-                s = set(rng.sample(others, rng.randint(0, len(others))))
-                pump(lambda m: m["type"] == "AE" and m["src"] == c and m["dst"] in s, p=0.9)
-                pump(lambda m: m["type"] == "AER" and m["dst"] == c, p=0.8)
-                if rng.random() < 0.4 and w.nops < 14:
-                    w.submit(c)
+                y = rng.random()
+                if y < 0.22:
+                    if w.nops < 14:
+                        w.submit(c)
+                elif y < 0.42:
+                    if w.live(c, HB):
+                        w.fire(c, HB)
+                elif y < 0.75:
+                    s = set(rng.sample(others, rng.randint(1, len(others))))
+                    pump(lambda m: m["type"] == "AE" and m["src"] == c and m["dst"] in s, p=0.9)
+                else:
+                    pump(lambda m: m["type"] == "AER" and m["dst"] == c, p=0.85)
         # stale traffic from earlier rounds
         for _ in range(rng.randint(0, 3)):
             if w.pool:
@@ -459,6 +503,65 @@ def rounds_schedule(rng, n, steps):
         if rng.random() < 0.15 and w.nops < 14:
             w.submit(rng.choice(ids))          # a client that talks to whoever (deposed leaders included)
     return w, "rounds"
+
+
+# The directed 5-node scenarios of RaftImpl.tla (Fig8Guide, SplitVoteGuide, StaleGuide), mirrored here so that
+# the direct drive can run them with permuted node roles, random choice among the in-flight messages of a
+# class and a little noise (TLC's graphs of the same guides give the unperturbed variants).
+def _g(*steps):
+    return [tuple(s.split()[:1]) + tuple(int(x) if x.isdigit() else x for x in s.split()[1:]) for s in steps]
+
+
+PY_GUIDES = {
+    "fig8": _g("T 1", "D RV 1 2", "D RV 1 3", "D RV 1 4", "D RV 1 5", "D RVR 2 1", "D RVR 3 1",
+               "S 1", "H 1", "D AE 1 2",
+               "T 5", "D RV 5 3", "D RV 5 4", "D RVR 3 5", "D RVR 4 5", "S 5",
+               "D AE 5 1", "T 1", "D RV 1 2 3", "D RV 1 3 3", "D RVR 2 1 3", "D RVR 3 1 3",
+               "D AE 1 2 3", "D AER 2 1 3", "D AE 1 3 3", "D AER 3 1 3", "S 1", "D AE 1 3 3", "D AER 3 1 3",
+               "D AE 1 5 3", "T 5", "D RV 5 2 4", "D RV 5 3 4", "D RV 5 4 4", "D RVR 2 5 4", "D RVR 3 5 4",
+               "D AE 5 2 4", "D AER 2 5 4", "D AE 5 3 4", "D AER 3 5 4", "S 5", "H 5",
+               "D AE 5 2 4", "D AER 2 5 4", "D AE 5 3 4", "D AER 3 5 4", "H 5",
+               "D AE 5 2 4", "D AE 5 3 4", "D AE 5 1 4"),
+    "splitvote": _g("T 1", "T 2", "D RV 1 3", "D RV 2 5", "D RVR 3 1", "D RVR 5 2", "T 2", "T 1",
+                    "D RV 2 3 2", "D RV 2 5 2", "D RVR 3 2 2", "D RVR 5 2 2", "D RV 1 4", "D RVR 4 1",
+                    "S 2", "S 1", "H 2", "H 1", "D AE 2 3", "D AE 1 4", "D AE 2 1", "D AER 1 2"),
+    "stale": _g("T 1", "D RV 1 2", "D RV 1 3", "D RVR 2 1", "D RVR 3 1", "S 1", "S 1", "H 1", "D AE 1 2",
+                "T 3", "D RV 3 4", "D RV 3 5", "D RVR 4 3", "D RVR 5 3", "S 3", "H 3", "D AE 3 1", "D AE 3 4",
+                "D AER 1 3", "D AER 4 3", "T 1", "D RV 1 4", "D RV 1 5", "D RVR 4 1", "D RVR 5 1", "S 1",
+                "D AER 2 1", "H 1", "D AE 1 4", "D AER 4 1", "D RV 1 3", "T 3", "D RV 3 2", "D RV 3 5",
+                "D RVR 2 3", "D RVR 5 3"),
+}
+
+
+def guided_schedule(rng, which, noise=0.05):
+    """One of the directed scenarios on a real 5-node cluster, roles permuted."""
+    w = World(5)
+    perm = list(w.nodes)
+    rng.shuffle(perm)
+    p = {i + 1: perm[i] for i in range(5)}
+    for st in PY_GUIDES[which]:
+        if rng.random() < noise and w.pool:                       # noise: a stray delivery or a loss
+            k = rng.randrange(len(w.pool))
+            w.deliver(k) if rng.random() < 0.6 else w.drop(k)
+        if st[0] == "T":
+            w.fire(p[st[1]], ET)
+        elif st[0] == "H":
+            w.fire(p[st[1]], HB)
+        elif st[0] == "S":
+            if w.nodes[p[st[1]]].is_leader or rng.random() < 0.3:
+                w.submit(p[st[1]])
+        else:
+            _, typ, src, dst = st[:4]
+            ks = [k for k, e in enumerate(w.pool)
+                  if (e[0]["type"], e[0]["src"], e[0]["dst"]) == (typ, p[src], p[dst])
+                  and (len(st) < 5 or e[0]["term"] == st[4])]
+            if not ks and len(st) == 5:                          # the code may be in another term than the model
+                ks = [k for k, e in enumerate(w.pool) if (e[0]["type"], e[0]["src"], e[0]["dst"]) == (typ, p[src], p[dst])]
+            if ks:
+                w.deliver(ks[-1] if rng.random() < 0.6 else rng.choice(ks))
+            else:
+                w.skipped += 1
+    return w, "guided:" + which
 
 
 def random_schedule(rng, n, steps, *, partitions=True, crashes=True, style=None):
@@ -710,18 +813,17 @@ def culprit(clause, pos, verdict, devset):
     _, _, mpos, fl, first_fire = verdict
     if not (mpos == 0 or mpos > pos):
         return None
+    double = ["same_term_ae_clears_vote", "vote_tally_survives_retry"]
     if clause == "ElectionSafety":
-        cands = ["same_term_ae_clears_vote"]
+        cands = double
     elif clause == "FutureTruth":
         cands = ["future_keyed_by_index_only"]
     else:
         # wrong commits; a double leader explains them only if it was actually observed before
-        cands = ["match_is_follower_last_index", "stale_term_ae_response"]
+        cands = ["match_is_follower_last_index", "stale_term_ae_response", "commit_counts_old_term_entry"]
         if any(c == "ElectionSafety" and p <= pos for c, p in fl):
-            if clause == "LogMatching":      # same index and term, different entry: two leaders of a term
-                cands.insert(0, "same_term_ae_clears_vote")
-            else:
-                cands.append("same_term_ae_clears_vote")
+            # same index and term, different entry = two leaders of a term
+            cands = double + cands if clause == "LogMatching" else cands + double
     hit = [d for d in cands if d in devset and 0 < first_fire.get(d, 0) <= pos]
     return hit[0] if hit else None
 
@@ -744,12 +846,14 @@ def classify(chk, failing, traces, meta, known):
         by_n = {}
         for tid in sorted({t for t, _, _ in todo}):
             by_n.setdefault(meta[tid]["n"], []).append(traces[tid])
-        for d in DEVIATIONS:
-            if d not in known:
-                alt[d], r2 = validate(by_n, sorted(known + [d]), f"C11_reattr_{d[:10]}")
-                for r in r2:
-                    chk.add_tlc(f"RaftTrace Dev=registered + {d} (attribution of unexplained failures)", r,
-                                count=False)
+        extra = [d for d in DEVIATIONS if d not in known]
+        with ThreadPoolExecutor(max_workers=3) as ex:
+            outs = list(ex.map(lambda d: validate(by_n, sorted(known + [d]), f"C11_reattr_{d[:14]}"), extra))
+        for d, (vd, r2) in zip(extra, outs):
+            alt[d] = vd
+            for r in r2:
+                chk.add_tlc(f"RaftTrace Dev=registered + {d} (attribution of unexplained failures)", r,
+                            count=False)
     for tid, v in sorted(failing.items()):
         verdict, pos0, mpos, fl, first_fire = v
         for clause, pos in fl:
@@ -770,9 +874,17 @@ def classify(chk, failing, traces, meta, known):
                                       f"{v2[tid][4][d2]}", replay)
                     break
             else:
-                why = f"code and model already disagree at step {mpos}" if not (mpos == 0 or mpos > pos) else \
-                    "the model reproduces it, but no registered deviation able to break this clause fired"
-                chk.violation(clause, f"{what}; {why}", replay)
+                if not (mpos == 0 or mpos > pos):
+                    ms = traces[tid]["steps"][mpos - 1]
+                    kind = {"T": "election_timeout", "H": "heartbeat_tick", "S": "submit"}.get(
+                        ms["a"], ms["a"] + "_" + (ms.get("m") or {}).get("type", ""))
+                    key = f"{clause}:code_left_model_at_{kind}"
+                    why = (f"code and model first disagree at step {mpos} ({ms['a']} on n{ms.get('n', '?')}, "
+                           f"handler of {kind})")
+                else:
+                    key = clause
+                    why = "the model reproduces it, but no registered deviation able to break this clause fired"
+                chk.violation(key, f"{what}; {why}", replay)
 
 
 # ---------------------------------------------------------------------------
@@ -857,16 +969,24 @@ def run(tier, seed, replay=None):
         w, style = random_schedule(random.Random(sub), n, steps)
         styles[style] = styles.get(style, 0) + 1
         add(w, f"random:{style}", n, sub=sub, steps=steps)
+    # directed 5-node scenarios (figure 8, split vote + retry, stale response) with permuted roles and noise
+    n_guided = 20 if quick else 200
+    for which in PY_GUIDES:
+        for k in range(n_guided):
+            sub = rng.randrange(1 << 30)
+            w, style = guided_schedule(random.Random(sub), which, noise=0.0 if k < 3 else 0.05)
+            styles[style] = styles.get(style, 0) + 1
+            add(w, f"random:{style}", 5, sub=sub, which=which, noise=0.0 if k < 3 else 0.05)
     chk.extra["random_schedules"] = styles
     flush()
     phase["python_drivers"] = round(time.time() - t0, 1)
 
     # spec -> code: behaviours of the as-code model's state graph
     skipped = 0
-    for gname, acts in f_beh.result():
-        w = replay_behaviour(acts)
+    for gname, acts, nn in f_beh.result():
+        w = replay_behaviour(acts, nn)
         skipped += w.skipped
-        add(w, f"model:{gname}", 3, acts=acts)
+        add(w, f"model:{gname}", nn, acts=acts)
         chk.replays += 1
     phase["graph_replays_done"] = round(time.time() - t0, 1)
     # spec -> code: TLC's counterexample for every deviation, executed on the real nodes (R1: a deviation
@@ -964,6 +1084,9 @@ def run_replay(chk, path, known):
     origin = m["origin"]
     if origin.startswith("model"):
         w = replay_behaviour(m["acts"], m["n"])
+        t = w.trace(1)
+    elif origin.startswith("random:guided"):
+        w, _ = guided_schedule(random.Random(m["sub"]), m["which"], noise=m["noise"])
         t = w.trace(1)
     elif origin.startswith("random"):
         w, _ = random_schedule(random.Random(m["sub"]), m["n"], m["steps"])
